@@ -1,0 +1,117 @@
+//go:build verif
+
+package interp
+
+import (
+	"reflect"
+	"runtime"
+	"strings"
+)
+
+// Verification hook for property C02 (operators and conversions). Compiled only with
+// -tags verif. It only reads the compiled tree: for every operator node it reports the
+// inputs of the dispatch performed by the generated functions of op.go (which function
+// was chosen as generator, the kind of the result type, whether the destination is an
+// interface, which operands are compile-time values, whether the node branches), so that
+// an external harness can tell which closure variant evaluates a given source expression.
+
+// VerifOpNode describes one operator node of a compiled program.
+type VerifOpNode struct {
+	Line, Col    int
+	Kind         string // node kind (binaryExpr, unaryExpr, assignStmt, incDecStmt, callExpr …)
+	Action       string // action (+, -, +=, ++ …)
+	Gen          string // name of the generator function (add, addAssign, nop, convert …)
+	TypKind      string // n.typ.TypeOf().Kind()
+	ConcreteKind string // n.typ.concrete().TypeOf().Kind()
+	IsInterface  bool   // n.typ.TypeOf().Kind() == reflect.Interface
+	Folded       bool   // n.rval.IsValid(): computed at compile time
+	HasFnext     bool   // n.fnext != nil
+	NChild       int
+	C0Const      bool   // child[0].rval.IsValid()
+	C1Const      bool   // child[1].rval.IsValid()
+	C0Kind       string // child[0].typ.TypeOf().Kind()
+	C1Kind       string
+	C0Untyped    bool
+	C1Untyped    bool
+	C0ConstVal   bool // child[0].rval holds a go/constant value
+	C1ConstVal   bool
+	Linked       bool // child[0].typ.cat == linkedT || child[1].typ.cat == linkedT (operands of a defined type)
+}
+
+func verifKind(t *itype) (k string, untyped bool) {
+	defer func() {
+		if r := recover(); r != nil {
+			k = "?"
+		}
+	}()
+	if t == nil {
+		return "nil", false
+	}
+	rt := t.TypeOf()
+	if rt == nil {
+		return "nil", t.untyped
+	}
+	return rt.Kind().String(), t.untyped
+}
+
+func verifGenName(g bltnGenerator) string {
+	if g == nil {
+		return ""
+	}
+	f := runtime.FuncForPC(reflect.ValueOf(g).Pointer())
+	if f == nil {
+		return "?"
+	}
+	name := f.Name()
+	if i := strings.LastIndex(name, "/interp."); i >= 0 {
+		name = name[i+len("/interp."):]
+	}
+	return name
+}
+
+// VerifOpNodes lists the operator, assignment, inc/dec and conversion nodes of a compiled program.
+func (interp *Interpreter) VerifOpNodes(p *Program) []VerifOpNode {
+	var out []VerifOpNode
+	if p == nil || p.root == nil {
+		return nil
+	}
+	p.root.Walk(func(n *node) bool {
+		switch n.kind {
+		case binaryExpr, unaryExpr, incDecStmt, assignStmt, defineStmt, callExpr, landExpr, lorExpr:
+		default:
+			return true
+		}
+		if n.kind == callExpr && verifGenName(n.gen) != "convert" && !(n.rval.IsValid() && len(n.child) == 2) {
+			return true
+		}
+		pos := interp.fset.Position(n.pos)
+		v := VerifOpNode{Line: pos.Line, Col: pos.Column, Kind: n.kind.String(), Action: n.action.String(), Gen: verifGenName(n.gen),
+			Folded: n.rval.IsValid(), HasFnext: n.fnext != nil, NChild: len(n.child)}
+		v.TypKind, _ = verifKind(n.typ)
+		if n.typ != nil {
+			func() {
+				defer func() { _ = recover() }()
+				v.ConcreteKind, _ = verifKind(n.typ.concrete())
+			}()
+		}
+		v.IsInterface = v.TypKind == "interface"
+		if len(n.child) > 0 {
+			c := n.child[0]
+			v.C0Const = c.rval.IsValid()
+			v.C0Kind, v.C0Untyped = verifKind(c.typ)
+			v.C0ConstVal = c.rval.IsValid() && isConstantValue(c.rval.Type())
+		}
+		if len(n.child) > 1 && n.child[0].typ != nil && n.child[1].typ != nil {
+			v.Linked = n.child[0].typ.cat == linkedT || n.child[1].typ.cat == linkedT
+		}
+		if len(n.child) > 1 {
+			c := n.child[1]
+			v.C1Const = c.rval.IsValid()
+			v.C1Kind, v.C1Untyped = verifKind(c.typ)
+			v.C1ConstVal = c.rval.IsValid() && isConstantValue(c.rval.Type())
+		}
+		out = append(out, v)
+		return true
+	}, nil)
+	return out
+}
